@@ -53,7 +53,7 @@ fn construct_of(msg: &str) -> String {
     re.replace_all(msg, "_").chars().take(70).collect::<String>().trim().to_string()
 }
 
-struct Ctx<'a> { st: &'a mut Stats, sql: &'a str, class: &'a str, relations: &'a Hierarchy<Arc<Relation>> }
+struct Ctx<'a> { st: &'a mut Stats, sql: &'a str, class: &'a str, relations: &'a Hierarchy<Arc<Relation>>, db: Option<&'a Db>, reference: Option<Rows> }
 
 fn one<T: RelationToQueryTranslator + QueryToRelationTranslator + Copy>(cx: &mut Ctx, name: &str, rel: &Relation, t: T) where T::D: Dialect {
     let text = match catch_unwind(AssertUnwindSafe(|| ast::Query::from(RelationWithTranslator(rel, t)).to_string())) { Ok(x) => x,
@@ -74,6 +74,19 @@ fn one<T: RelationToQueryTranslator + QueryToRelationTranslator + Copy>(cx: &mut
         Ok(Err(e)) => { cx.st.violation(json!({"kind":"translated-sql-not-read-back","dialect":name,"class":cx.class,"construct":construct_of(&e.to_string()),"query":cx.sql,"error":e.to_string().chars().take(200).collect::<String>(),"translated":text.chars().take(500).collect::<String>()})); return; }
         Err(_) => { cx.st.violation(json!({"kind":"reading-back-panics","dialect":name,"class":cx.class,"construct":construct_of(&last_panic()),"query":cx.sql,"panic":last_panic(),"translated":text.chars().take(500).collect::<String>()})); return; } };
     cx.st.bump(&format!("read_back_{}", name));
+    // the relation read back means what the original means: both rendered with the default translator and executed
+    if let (Some(db), Some(reference)) = (cx.db, cx.reference.as_ref()) {
+        if schema_sig(rel) == schema_sig(&back) {
+            if let Ok(text_back) = catch_unwind(AssertUnwindSafe(|| render(&back))) {
+                if let Ok((_, rows)) = db.query(&text_back) {
+                    cx.st.bump("read_back_executed");
+                    if bag(&rows) != bag(reference) {
+                        cx.st.violation(json!({"kind":"read-back-relation-returns-other-rows","dialect":name,"class":cx.class,"query":cx.sql,"translated":text.chars().take(500).collect::<String>(),"original_count":reference.len(),"read_back_count":rows.len()}));
+                    }
+                }
+            }
+        }
+    }
     let (a, b) = (schema_sig(rel), schema_sig(&back));
     if a.iter().map(|x| &x.0).collect::<Vec<_>>() != b.iter().map(|x| &x.0).collect::<Vec<_>>() {
         cx.st.violation(json!({"kind":"read-back-column-names-differ","dialect":name,"class":cx.class,"query":cx.sql,"schema":a,"read_back":b}));
@@ -142,7 +155,11 @@ pub fn run(outdir: &str, seed: u64, thorough: bool) -> serde_json::Value {
                 "WITH c AS (SELECT t.age AS a, t.id AS b FROM users AS t WHERE t.age > 20) SELECT c.a AS v FROM c WHERE c.a > 30 EXCEPT SELECT c.b AS v FROM c WHERE c.b < 40",
                 "WITH c AS (SELECT t.age AS a, t.id AS b FROM users AS t) SELECT c.a + 1 AS v FROM c INTERSECT SELECT c.b + 2 AS v FROM c",
                 "WITH c AS (SELECT t.age AS a, t.id AS b FROM users AS t) SELECT x.a AS a, y.b AS b FROM c AS x JOIN c AS y ON x.b = y.a",
-                "WITH c AS (SELECT t.age AS a, t.id AS b FROM users AS t), d AS (SELECT c.a AS v FROM c UNION SELECT c.b AS v FROM c) SELECT d.v AS v FROM d UNION ALL SELECT c.a + c.b AS v FROM c"];
+                "WITH c AS (SELECT t.age AS a, t.id AS b FROM users AS t), d AS (SELECT c.a AS v FROM c UNION SELECT c.b AS v FROM c) SELECT d.v AS v FROM d UNION ALL SELECT c.a + c.b AS v FROM c",
+                // CASE with several WHEN branches whose conditions overlap (the first true branch wins), nested in ELSE and in THEN
+                "SELECT CASE WHEN t.age > 60 THEN 'high' WHEN t.age > 30 THEN 'mid' WHEN t.age > 0 THEN 'low' ELSE 'none' END AS k, t.id AS i FROM users AS t",
+                "SELECT CASE WHEN t.amount > 400 THEN 3 WHEN t.amount > 100 THEN 2 WHEN t.amount >= 0 THEN 1 ELSE 0 END AS k, t.id AS i FROM orders AS t",
+                "SELECT CASE WHEN t.age > 20 THEN CASE WHEN t.age > 50 THEN 1 WHEN t.age > 40 THEN 2 ELSE 3 END WHEN t.age > 10 THEN 4 ELSE 5 END AS k, t.id AS i FROM users AS t"];
             let sql = if k >= 1 && k <= frag_targeted.len() { frag_targeted[k - 1].to_string() } else {
                 let (q0, cols) = { let mut g = QGen::new(&mut r, &w.specs); g.bool_items = true; g.query(depth) };
                 let is_set = q0.contains(" UNION ") || q0.contains(" INTERSECT ") || q0.contains(" EXCEPT ");
@@ -151,8 +168,11 @@ pub fn run(outdir: &str, seed: u64, thorough: bool) -> serde_json::Value {
             (sql, rel, &w.relations, "fragment")
         };
         made += 1; st.evaluations += 1; st.distinct.insert(hash_str(&sql)); st.bump(&format!("class_{}", class));
+        // fragment queries are also executed: the database and the rows of the original text
+        let frag_db = if class == "fragment" { let data = gen_data(&mut r, &w.specs, 10); Some(Db::new(&w.specs, &data)) } else { None };
+        let reference: Option<Rows> = match &frag_db { Some(db) if !sql.to_uppercase().contains("LIMIT") && !sql.to_uppercase().contains("RANDOM") => db.query(&sql).ok().map(|x| x.1), _ => None };
         {
-            let mut cx = Ctx { st: &mut st, sql: &sql, class, relations };
+            let mut cx = Ctx { st: &mut st, sql: &sql, class, relations, db: frag_db.as_ref(), reference };
             one(&mut cx, "postgresql", &rel, PostgreSqlTranslator);
             one(&mut cx, "mysql", &rel, MySqlTranslator);
             one(&mut cx, "mssql", &rel, MsSqlTranslator);
@@ -169,8 +189,7 @@ pub fn run(outdir: &str, seed: u64, thorough: bool) -> serde_json::Value {
                 if let Err(e) = parse_with_dialect(&text, SQLiteDialect {}) { st.violation(json!({"kind":"translated-sql-rejected-by-the-dialect-parser","dialect":"sqlite","class":class,"construct":construct_of(&e.to_string()),"query":sql,"error":e.to_string()})); }
                 if class == "fragment" {
                     // the original text and the SQLite translation on the same database (as C08 does for the default rendering)
-                    let data = gen_data(&mut r, &w.specs, 10);
-                    let db = Db::new(&w.specs, &data);
+                    let db = frag_db.as_ref().unwrap();
                     match (db.query(&sql), db.query(&text)) {
                         (Ok((an, a)), Ok((bn, b))) => { st.bump("executed_on_sqlite");
                             let same_order = !ordered || a.iter().zip(b.iter()).all(|(x, y)| x.iter().map(|v| v.canon()).collect::<Vec<_>>() == y.iter().map(|v| v.canon()).collect::<Vec<_>>());
